@@ -197,7 +197,7 @@ def replay(data):
                 s._update_values = upd
                 if name == "pi":
                     s._calculate_policy_values = lambda policy, values, s=s: jnp.asarray(np.asarray(values) * 0.5 + s.iteration)
-                    s._extract_policy = lambda s=s: (s.policy if (target is not None and s.iteration == target) else (jnp.asarray(s.policy) + 1) % 2)
+                    s._extract_policy = lambda *a, s=s, **k: (s.policy if (target is not None and s.iteration == target) else (jnp.asarray(s.policy) + 1) % 2)
                 return s
             ref = force(mk())
             s = force(mk(ckdir=d, f=job["f"], m=job["m"], async_=job["async_"]))
